@@ -122,6 +122,7 @@ func (p *poller) start() {
 	defer logging.Debug("NBIO[%v][%v_%v] stopped", p.g.Name, p.pollType, p.index)
 
 	if p.isListener {
+		defer p.g.wgListeners.Done()
 		var err error
 		p.shutdown = false
 		for !p.shutdown {
